@@ -26,14 +26,10 @@ func setupStream(se *StreamEnv, denom string) streamPre {
 	se.Bank.AddBase(send)
 	dep := rt.BigInt("deposit", 0, 200)
 	rate := rt.I64("rate")
-	rt.Assume(rate >= 1)
 	last := rt.Time("last")
 	zero := rt.Time("zero")
-	rt.Assume(!last.After(se.Now))
-	// INV-S funding invariant: deposit·1e9 >= rate·(zero − last) [ns] whenever zero > last
 	lastNs, zeroNs := rt.TimeNanos(last), rt.TimeNanos(zero)
-	rt.Assume(rt.Or(rt.IntLe(zeroNs, lastNs),
-		rt.IntLe(rt.IntMul(rt.IntOfI64(rate), rt.IntSub(zeroNs, lastNs)), rt.IntMul(dep, rt.IntOfI64(1000000000)))))
+	rt.Assume(invStream(dep, rate, lastNs, zeroNs, rt.TimeNanos(se.Now)))
 	st := streamtypes.Stream{
 		Deposit:         sdk.NewCoin(denom, dep),
 		FlowRate:        rate,
@@ -47,9 +43,27 @@ func setupStream(se *StreamEnv, denom string) streamPre {
 	return streamPre{Deposit: dep, Rate: rate, Last: lastNs, Zero: zeroNs, Other: other, Receiver: recv, Sender: send}
 }
 
+// invStream is INV-S for one stream (all times in exact nanoseconds):
+//   rate >= 1, deposit >= 0, last <= now,
+//   deposit > 0  =>  rate·(zero − last) <= deposit·1e9   (only binding when zero > last)
+//   deposit = 0  =>  zero <= now                          (an empty stream is always "expired")
+//   zero <= 9999-12-31T23:59:59Z                          (AddSeconds saturates there)
+func invStream(dep sdk.Int, rate int64, lastNs, zeroNs, nowNs sdk.Int) bool {
+	funded := rt.Or(rt.IntLe(zeroNs, lastNs),
+		rt.IntLe(rt.IntMul(rt.IntOfI64(rate), rt.IntSub(zeroNs, lastNs)), rt.IntMul(dep, rt.IntOfI64(1000000000))))
+	empty := rt.IntLe(zeroNs, nowNs)
+	capped := rt.IntLe(zeroNs, rt.IntMul(maxTimeSec(), rt.IntOfI64(1000000000)))
+	return rt.And(rt.And(rate >= 1, rt.And(capped, rt.IntLe(lastNs, nowNs))),
+		rt.And(rt.IntLe(sdk.ZeroInt(), dep), rt.And(rt.Implies(rt.IntLt(sdk.ZeroInt(), dep), funded), rt.Implies(rt.IntEq(dep, sdk.ZeroInt()), empty))))
+}
+
+func invStreamOf(st streamtypes.Stream, now sdk.Int) bool {
+	return invStream(st.Deposit.Amount, st.FlowRate, rt.TimeNanos(st.LastOutflowTime), rt.TimeNanos(st.DepositZeroTime), now)
+}
+
 // H_C10_Claim: one ClaimStream step from an arbitrary INV-S state.
 func H_C10_Claim() {
-	now := rt.Time("now")
+	now := AnyBlockTime("now")
 	se := NewStreamEnv(now)
 	fee := AnyValidatorFee("valFee")
 	_ = se.K.SetParams(se.Ctx, streamtypes.Params{ValidatorFee: fee})
@@ -91,6 +105,174 @@ func H_C10_Claim() {
 	rt.Assert("C10.supply-unchanged", rt.IntEq(se.Bank.SupplyOf("nund"), rt.IntAdd(pre.Deposit, pre.Other)))
 	// INV-S preserved
 	rt.Assert("INV.last=now", st.LastOutflowTime.Equal(now))
-	rt.Assert("INV.funding", rt.Or(rt.IntLe(pre.Zero, nowNs),
-		rt.IntLe(rt.IntMul(rt.IntOfI64(pre.Rate), rt.IntSub(pre.Zero, nowNs)), rt.IntMul(st.Deposit.Amount, rt.IntOfI64(1000000000)))))
+	rt.Assert("INV.stream", invStreamOf(st, nowNs))
+}
+
+// maxTimeNs: the latest instant protobuf can encode (9999-12-31T23:59:59Z), in ns.
+func maxTimeSec() sdk.Int { return sdk.NewInt(253402300799) }
+
+// expectedZero: base + ext seconds, saturating at the latest encodable time.
+func addSecsSat(baseNs sdk.Int, ext sdk.Int) sdk.Int {
+	mx := rt.IntMul(maxTimeSec(), rt.IntOfI64(1000000000))
+	z := rt.IntAdd(baseNs, rt.IntMul(ext, rt.IntOfI64(1000000000)))
+	return rt.IteInt(rt.IntLe(z, mx), z, mx)
+}
+
+// H_C10_TopUp: one TopUpDeposit step (live or expired stream) by a sender who can afford it.
+func H_C10_TopUp() {
+	now := AnyBlockTime("now")
+	se := NewStreamEnv(now)
+	fee := AnyValidatorFee("valFee")
+	_ = se.K.SetParams(se.Ctx, streamtypes.Params{ValidatorFee: fee})
+	pre := setupStream(se, "nund")
+	topup := rt.BigInt("topup", 1, 200)
+	senderBal := rt.BigInt("senderBalance", 0, 201)
+	rt.Assume(rt.IntLe(topup, senderBal))
+	se.Bank.Fund(pre.Sender, "nund", senderBal)
+	srv := streamkeeper.NewMsgServerImpl(se.K)
+	msg := &streamtypes.MsgTopUpDeposit{Receiver: pre.Receiver.String(), Sender: pre.Sender.String(), Deposit: sdk.NewCoin("nund", topup)}
+	nowNs := rt.TimeNanos(now)
+	expired := rt.IntLe(pre.Zero, nowNs)
+	ext := rt.IntDivFloor(topup, rt.IntOfI64(pre.Rate))
+
+	var err error
+	panicked := rt.Catch(func() {
+		_, err = srv.TopUpDeposit(sdk.WrapSDKContext(se.Ctx), msg)
+	})
+	rt.Assert("C12.topup-no-panic", !panicked)
+	if panicked {
+		return
+	}
+	rt.Assert("C12.topup-succeeds", err == nil)
+	if err != nil {
+		return
+	}
+	rt.Reach("topup-ok")
+	st, _ := se.K.GetStream(se.Ctx, pre.Receiver, pre.Sender)
+	// what was released by the implied settlement (expired with deposit > 0): the whole remainder
+	released := rt.IteInt(expired, pre.Deposit, sdk.ZeroInt())
+	rt.Assert("C11.topup-settles-remainder", rt.IntEq(st.Deposit.Amount, rt.IntAdd(rt.IntSub(pre.Deposit, released), topup)))
+	base := rt.IteInt(expired, nowNs, pre.Zero)
+	rt.Assert("C11.topup-zero-time", rt.IntEq(rt.TimeNanos(st.DepositZeroTime), addSecsSat(base, ext)))
+	rt.Assert("C10.sender-debited", rt.IntEq(se.Bank.Bal(pre.Sender, "nund"), rt.IntSub(senderBal, topup)))
+	rt.Assert("C10.escrow-backed", rt.IntEq(se.Bank.Bal(se.Escrow, "nund"), rt.IntAdd(st.Deposit.Amount, pre.Other)))
+	rt.Assert("C10.released-paid", rt.IntEq(rt.IntAdd(se.Bank.Bal(pre.Receiver, "nund"), se.Bank.Bal(se.FeeColl, "nund")), released))
+	rt.Assert("INV.stream", invStreamOf(st, nowNs))
+	rt.Assert("INV.rate-unchanged", st.FlowRate == pre.Rate)
+}
+
+// H_C10_Update: one UpdateFlowRate step.
+func H_C10_Update() {
+	now := AnyBlockTime("now")
+	se := NewStreamEnv(now)
+	fee := AnyValidatorFee("valFee")
+	_ = se.K.SetParams(se.Ctx, streamtypes.Params{ValidatorFee: fee})
+	pre := setupStream(se, "nund")
+	newRate := rt.I64("newRate")
+	srv := streamkeeper.NewMsgServerImpl(se.K)
+	msg := &streamtypes.MsgUpdateFlowRate{Receiver: pre.Receiver.String(), Sender: pre.Sender.String(), FlowRate: newRate}
+	rt.Assume(msg.ValidateBasic() == nil)
+	nowNs := rt.TimeNanos(now)
+
+	var err error
+	panicked := rt.Catch(func() {
+		_, err = srv.UpdateFlowRate(sdk.WrapSDKContext(se.Ctx), msg)
+	})
+	rt.Assert("C12.update-no-panic", !panicked)
+	if panicked {
+		return
+	}
+	rt.Assert("C12.update-succeeds", err == nil)
+	if err != nil {
+		return
+	}
+	rt.Reach("update-ok")
+	st, _ := se.K.GetStream(se.Ctx, pre.Receiver, pre.Sender)
+	secs := rt.IntDivFloor(rt.IntSub(nowNs, pre.Last), rt.IntOfI64(1000000000))
+	due := rt.IntMin(pre.Deposit, rt.IntMul(secs, rt.IntOfI64(pre.Rate)))
+	released := rt.IteInt(rt.IntLt(nowNs, pre.Zero), due, pre.Deposit)
+	rt.Assert("C11.update-settles-old-rate", rt.IntEq(st.Deposit.Amount, rt.IntSub(pre.Deposit, released)))
+	rt.Assert("C11.update-rate-set", st.FlowRate == newRate)
+	ext := rt.IntDivFloor(st.Deposit.Amount, rt.IntOfI64(newRate))
+	rt.Assert("C11.update-zero-time", rt.IntEq(rt.TimeNanos(st.DepositZeroTime), addSecsSat(nowNs, ext)))
+	rt.Assert("C10.escrow-backed", rt.IntEq(se.Bank.Bal(se.Escrow, "nund"), rt.IntAdd(st.Deposit.Amount, pre.Other)))
+	rt.Assert("C10.released-paid", rt.IntEq(rt.IntAdd(se.Bank.Bal(pre.Receiver, "nund"), se.Bank.Bal(se.FeeColl, "nund")), released))
+	rt.Assert("INV.stream", invStreamOf(st, nowNs))
+}
+
+// H_C10_Cancel: one CancelStream step.
+func H_C10_Cancel() {
+	now := AnyBlockTime("now")
+	se := NewStreamEnv(now)
+	fee := AnyValidatorFee("valFee")
+	_ = se.K.SetParams(se.Ctx, streamtypes.Params{ValidatorFee: fee})
+	pre := setupStream(se, "nund")
+	srv := streamkeeper.NewMsgServerImpl(se.K)
+	msg := &streamtypes.MsgCancelStream{Receiver: pre.Receiver.String(), Sender: pre.Sender.String()}
+	nowNs := rt.TimeNanos(now)
+
+	var err error
+	panicked := rt.Catch(func() {
+		_, err = srv.CancelStream(sdk.WrapSDKContext(se.Ctx), msg)
+	})
+	rt.Assert("C12.cancel-no-panic", !panicked)
+	if panicked {
+		return
+	}
+	rt.Assert("C12.cancel-succeeds", err == nil)
+	if err != nil {
+		return
+	}
+	rt.Reach("cancel-ok")
+	_, found := se.K.GetStream(se.Ctx, pre.Receiver, pre.Sender)
+	rt.Assert("C10.cancel-deletes", !found)
+	secs := rt.IntDivFloor(rt.IntSub(nowNs, pre.Last), rt.IntOfI64(1000000000))
+	due := rt.IntMin(pre.Deposit, rt.IntMul(secs, rt.IntOfI64(pre.Rate)))
+	released := rt.IteInt(rt.IntLt(nowNs, pre.Zero), due, pre.Deposit)
+	rt.Assert("C11.cancel-refund", rt.IntEq(se.Bank.Bal(pre.Sender, "nund"), rt.IntSub(pre.Deposit, released)))
+	rt.Assert("C10.released-paid", rt.IntEq(rt.IntAdd(se.Bank.Bal(pre.Receiver, "nund"), se.Bank.Bal(se.FeeColl, "nund")), released))
+	rt.Assert("C10.escrow-backed", rt.IntEq(se.Bank.Bal(se.Escrow, "nund"), pre.Other))
+}
+
+// H_C10_Create: CreateStream from a state without a stream for the pair.
+func H_C10_Create() {
+	now := AnyBlockTime("now")
+	se := NewStreamEnv(now)
+	recv, send := Addr(0), Addr(1)
+	se.Bank.AddBase(recv)
+	se.Bank.AddBase(send)
+	other := rt.BigInt("otherDeposits", 0, 200)
+	se.Bank.Fund(se.Escrow, "nund", other)
+	dep := rt.BigInt("deposit", 0, 200)
+	rate := rt.I64("rate")
+	senderBal := rt.BigInt("senderBalance", 0, 201)
+	se.Bank.Fund(send, "nund", senderBal)
+	srv := streamkeeper.NewMsgServerImpl(se.K)
+	msg := &streamtypes.MsgCreateStream{Receiver: recv.String(), Sender: send.String(), Deposit: sdk.NewCoin("nund", dep), FlowRate: rate}
+	rt.Assume(msg.ValidateBasic() == nil)
+	nowNs := rt.TimeNanos(now)
+
+	var err error
+	panicked := rt.Catch(func() {
+		_, err = srv.CreateStream(sdk.WrapSDKContext(se.Ctx), msg)
+	})
+	rt.Assert("C12.create-no-panic", !panicked)
+	if panicked {
+		return
+	}
+	st, found := se.K.GetStream(se.Ctx, recv, send)
+	if err != nil {
+		rt.Reach("create-rejected")
+		return
+	}
+	rt.Reach("create-ok")
+	rt.Assert("C10.create-stored", found)
+	rt.Assert("C11.create-min-duration", rt.IntLe(rt.IntMul(rt.IntOfI64(60), rt.IntOfI64(rate)), dep))
+	rt.Assert("C10.create-deposit", rt.IntEq(st.Deposit.Amount, dep))
+	ext := rt.IntDivFloor(dep, rt.IntOfI64(rate))
+	rt.Assert("C11.create-zero-time", rt.IntEq(rt.TimeNanos(st.DepositZeroTime), addSecsSat(nowNs, ext)))
+	rt.Assert("C11.create-last=now", st.LastOutflowTime.Equal(now))
+	rt.Assert("C10.sender-debited", rt.IntEq(se.Bank.Bal(send, "nund"), rt.IntSub(senderBal, dep)))
+	rt.Assert("C10.escrow-backed", rt.IntEq(se.Bank.Bal(se.Escrow, "nund"), rt.IntAdd(dep, other)))
+	rt.Assert("INV.stream", invStreamOf(st, nowNs))
 }
